@@ -367,6 +367,238 @@ theorem C01_fire_forward (n : Node) (node : String) (ca : Nat) (env : Env) (hsel
       simpa [hn, hl] using this
     · simp [hl]; exact kle_refl _
 
+/-! ### histories: the view of a member only moves forward between takeovers and reaping -/
+
+theorem alive_cfg (n : Node) (a : AliveMsg) (nt b : Bool) (env : Env) : (aliveNode n a nt b env).1.cfg = n.cfg := by
+  unfold aliveNode
+  cases aliveDecide n a b env with
+  | ignore => rfl
+  | conflict => rfl
+  | stubOnly => rfl
+  | delTimerOnly isNew => cases isNew <;> rfl
+  | refuteSelf isNew => cases isNew <;> rfl
+  | accept isNew => cases isNew <;> rfl
+
+theorem suspect_cfg (n : Node) (s : Claim) (env : Env) : (suspectNode n s env).1.cfg = n.cfg := by
+  unfold suspectNode
+  cases lookup n.recs s.node with
+  | none => rfl
+  | some state =>
+    simp only
+    split
+    · rfl
+    · cases n.timers.find? (·.node == s.node) with
+      | some t => simp only; split <;> rfl
+      | none =>
+        simp only
+        split
+        · rfl
+        · split <;> rfl
+
+theorem dead_cfg (n : Node) (d : Claim) (env : Env) : (deadNode n d env).1.cfg = n.cfg := by
+  unfold deadNode
+  cases lookup n.recs d.node with
+  | none => rfl
+  | some state =>
+    simp only
+    split
+    · rfl
+    · split
+      · rfl
+      · split <;> rfl
+
+theorem mergeOne_cfg (n : Node) (r : PushState) (now : Nat) : (mergeOne n r now).1.cfg = n.cfg := by
+  unfold mergeOne
+  cases r.st
+  · exact alive_cfg n _ false false _
+  · exact suspect_cfg n _ _
+  · exact suspect_cfg n _ _
+  · exact dead_cfg n _ _
+
+/-- the alive claim and environment a push/pull entry stands for -/
+def PushState.toAlive (r : PushState) : AliveMsg := { inc := r.inc, node := r.name, addr := r.addr, port := r.port, md := r.md, vsn := r.vsn }
+def PushState.toEnv (r : PushState) (now : Nat) : Env := { now, ipAllowed := r.ipAllowed, delegateOk := r.delegateOk, offset := r.offset }
+
+/-- some entry of the merged list performs a legitimate takeover of `x` at the moment it is merged -/
+def mergeTakeover : Node → List PushState → Nat → String → Prop
+  | _, [], _, _ => False
+  | n, r :: rest, now, x =>
+    (r.name = x ∧ r.st = .alive ∧ takeover n r.toAlive (r.toEnv now)) ∨ mergeTakeover (mergeOne n r now).1 rest now x
+
+theorem mergeFold_eq (n : Node) (rs : List PushState) (now : Nat) (acc : List Out) :
+    (rs.foldl (fun (a : Node × List Out) r => ((mergeOne a.1 r now).1, a.2 ++ (mergeOne a.1 r now).2)) (n, acc)).1 =
+    (rs.foldl (fun m r => (mergeOne m r now).1) n) := by
+  induction rs generalizing n acc with
+  | nil => rfl
+  | cons r rs ih => simp only [List.foldl_cons]; exact ih _ _
+
+/-- **merge (whole list).** Merging a complete push/pull state moves the view of every other member
+forward, unless one of its alive entries performs a legitimate takeover. -/
+theorem C01_mergeState_forward (n : Node) (rs : List PushState) (now : Nat) (x : String) (hx : x ≠ n.cfg.self) :
+    kle (key (lookup n.recs x)) (key (lookup (mergeState n rs now).1.recs x)) ∨ mergeTakeover n rs now x := by
+  unfold mergeState
+  rw [mergeFold_eq]
+  induction rs generalizing n with
+  | nil => left; exact kle_refl _
+  | cons r rs ih =>
+    simp only [List.foldl_cons, mergeTakeover]
+    have hcfg := mergeOne_cfg n r now
+    have hx' : x ≠ (mergeOne n r now).1.cfg.self := by rw [hcfg]; exact hx
+    -- the first entry
+    have hfirst : kle (key (lookup n.recs x)) (key (lookup (mergeOne n r now).1.recs x)) ∨
+        (r.name = x ∧ r.st = .alive ∧ takeover n r.toAlive (r.toEnv now)) := by
+      by_cases hn : r.name = x
+      · subst hn
+        by_cases ht : takeover n r.toAlive (r.toEnv now)
+        · cases hst : r.st with
+          | alive => right; exact ⟨rfl, rfl, ht⟩
+          | suspect =>
+            left; unfold mergeOne; rw [hst]
+            exact C01_suspect_forward n { inc := r.inc, node := r.name, frm := n.cfg.self } _ hx
+          | dead =>
+            left; unfold mergeOne; rw [hst]
+            exact C01_suspect_forward n { inc := r.inc, node := r.name, frm := n.cfg.self } _ hx
+          | left =>
+            left; unfold mergeOne; rw [hst]
+            exact C01_dead_forward n { inc := r.inc, node := r.name, frm := r.name } _ hx
+        · left; exact C01_merge_forward n r now hx ht
+      · left
+        rw [C01_merge_frame n r now x (fun e => hn e.symm)]
+        exact kle_refl _
+    rcases hfirst with h1 | h1
+    · rcases ih (mergeOne n r now).1 hx' with h2 | h2
+      · left; exact kle_trans h1 h2
+      · right; right; exact h2
+    · right; left; exact h1
+
+/-- a step of the history that may legitimately move the view of `x` backwards: an alive claim or a
+merge entry taking the name over from a new address, or the reaper forgetting a dead record -/
+def regressStep (n : Node) (op : Op) (x : String) : Prop :=
+  match op with
+  | .alive a _ env => a.node = x ∧ takeover n a env
+  | .merge rs now => mergeTakeover n rs now x
+  | .reap => True
+  | _ => False
+
+def histRegress : Node → List Op → String → Prop
+  | _, [], _ => False
+  | n, op :: rest, x => regressStep n op x ∨ histRegress (step n op).1 rest x
+
+theorem step_cfg (n : Node) (op : Op) : (step n op).1.cfg = n.cfg := by
+  cases op with
+  | alive a b env => exact alive_cfg n a false b env
+  | suspect c env => exact suspect_cfg n c env
+  | dead c env => exact dead_cfg n c env
+  | merge rs now =>
+    simp only [step, mergeState]
+    rw [mergeFold_eq]
+    induction rs generalizing n with
+    | nil => rfl
+    | cons r rs ih => simp only [List.foldl_cons]; rw [ih, mergeOne_cfg]
+  | fire node ca env =>
+    simp only [step, timerFire]
+    cases lookup n.recs node with
+    | none => rfl
+    | some state =>
+      simp only
+      split
+      · exact dead_cfg n _ env
+      · rfl
+  | reap => rfl
+  | update a p m v env => simp only [step, updateNode]; exact alive_cfg _ _ true true env
+  | leave env =>
+    simp only [step, leave]
+    split
+    · rfl
+    · cases lookup n.recs n.cfg.self with
+      | none => rfl
+      | some state => simp only; exact dead_cfg _ _ env
+  | age name => rfl
+
+theorem lookup_map_key (recs : List Rec) (f : Rec → Rec) (hf : ∀ r, (f r).name = r.name ∧ (f r).inc = r.inc ∧ (f r).st = r.st)
+    (y : String) : key (lookup (recs.map f) y) = key (lookup recs y) := by
+  induction recs with
+  | nil => rfl
+  | cons x xs ih =>
+    simp only [lookup, List.map_cons, List.find?_cons, (hf x).1] at ih ⊢
+    cases hx : (x.name == y)
+    · simpa using ih
+    · simp [key, (hf x).2.1, (hf x).2.2]
+
+/-- **one step of any kind.** -/
+theorem C01_step_forward (n : Node) (op : Op) (x : String) (hx : x ≠ n.cfg.self) :
+    kle (key (lookup n.recs x)) (key (lookup (step n op).1.recs x)) ∨ regressStep n op x := by
+  cases op with
+  | alive a b env =>
+    by_cases hn : a.node = x
+    · subst hn
+      by_cases ht : takeover n a env
+      · right; exact ⟨rfl, ht⟩
+      · left; exact C01_alive_forward n a false b env hx ht
+    · left; simp only [step]; rw [C01_alive_frame n a false b env x (fun e => hn e.symm)]; exact kle_refl _
+  | suspect c env =>
+    left
+    by_cases hn : c.node = x
+    · subst hn; exact C01_suspect_forward n c env hx
+    · simp only [step]; rw [C01_suspect_frame n c env x (fun e => hn e.symm)]; exact kle_refl _
+  | dead c env =>
+    left
+    by_cases hn : c.node = x
+    · subst hn; exact C01_dead_forward n c env hx
+    · simp only [step]; rw [C01_dead_frame n c env x (fun e => hn e.symm)]; exact kle_refl _
+  | merge rs now => exact C01_mergeState_forward n rs now x hx
+  | fire node ca env =>
+    left
+    by_cases hn : node = x
+    · subst hn; exact C01_fire_forward n node ca env hx
+    · simp only [step, timerFire]
+      cases hl : lookup n.recs node with
+      | none => exact kle_refl _
+      | some state =>
+        simp only
+        split
+        · rw [C01_dead_frame n _ env x (by simpa [lookup_name hl] using fun e => hn e.symm)]; exact kle_refl _
+        · exact kle_refl _
+  | reap => right; trivial
+  | update a p m v env =>
+    left
+    simp only [step, updateNode]
+    rw [C01_alive_frame _ _ true true env x (by simpa using hx)]
+    exact kle_refl _
+  | leave env =>
+    left
+    simp only [step, leave]
+    split
+    · exact kle_refl _
+    · cases hl : lookup n.recs n.cfg.self with
+      | none => exact kle_refl _
+      | some state =>
+        simp only
+        rw [C01_dead_frame _ _ env x (by simpa [lookup_name hl] using hx)]
+        exact kle_refl _
+  | age name =>
+    left
+    simp only [step, ageRec]
+    rw [lookup_map_key n.recs _ (by intro r; split <;> exact ⟨rfl, rfl, rfl⟩) x]
+    exact kle_refl _
+
+/-- **C01_history.** Over any sequence of operations - claims by every path and in every order,
+merges, timer callbacks, UpdateNode, Leave, ageing - the view a node holds of any other member only
+moves forward in the precedence order, except at the steps where a different admitted address
+takes the name over from a left / long-dead holder, or where the reaper forgets a dead record. -/
+theorem C01_history (n : Node) (ops : List Op) (x : String) (hx : x ≠ n.cfg.self) :
+    kle (key (lookup n.recs x)) (key (lookup (ops.foldl (fun n op => (step n op).1) n).recs x)) ∨ histRegress n ops x := by
+  induction ops generalizing n with
+  | nil => left; exact kle_refl _
+  | cons op ops ih =>
+    simp only [List.foldl_cons, histRegress]
+    have hx' : x ≠ (step n op).1.cfg.self := by rw [step_cfg]; exact hx
+    rcases C01_step_forward n op x hx with h1 | h1
+    · rcases ih (step n op).1 hx' with h2 | h2
+      · left; exact kle_trans h1 h2
+      · right; right; exact h2
+    · right; left; exact h1
+
 /-- non-vacuity: a stale alive claim on a concrete node state is a no-op, a newer one is accepted -/
 example :
     let cfg : Cfg := { self := "S", reclaim := false, hasAliveDelegate := false, hasConflictDelegate := true, awarenessMax := 8, suspicionK := 2 }
